@@ -281,6 +281,7 @@ void run_codec(Bench<pol_cd>& B, const Query& q, std::ostream& os, const char* t
     for (auto& c : C.classes) os << "vptr0 " << r.cnum(&c) << " " << (std::ptrdiff_t)(*c.static_vptr - (base + ntab)) << "\n";
     os << "counts tables " << ntab << " vtbls " << nvt << " classes " << C.classes.size() << "\n";
     auto before = walk_all(r, true, true);
+    auto before_manual = walk_all(r, true, false);
 
     // (b) encode
     std::ostringstream enc;
@@ -331,13 +332,14 @@ void run_codec(Bench<pol_cd>& B, const Query& q, std::ostream& os, const char* t
     for (auto& kv : r.svp) kv.second = nullptr;
     for (auto m : lm) for (std::size_t i = 0; i < 2 * m->vp.size() - 1; ++i) m->info->slots_strides_ptr[i] = 999999;
     os << "decoding\n"; os.flush();
+    bool published = true;
     try {
         decode_dispatch_data<P>(data);
     } catch (Caught& c) {
+        // raised by the last statement of the decoder (publish_vptrs): the tables are decoded, the v-table pointers
+        // are not published, so real calls are not possible
         os << "codec decode-error " << c.what << "\n";
-        for (auto& kv : r.svp) kv.second = nullptr;
-        std::free(ubuf); std::free(dt);
-        return;
+        published = false;
     }
     if ((long)nvt > D) os << "codec decoded-beyond-declared " << nvt << " > D " << D << "\n";
     os << "codec decoded";
@@ -350,7 +352,8 @@ void run_codec(Bench<pol_cd>& B, const Query& q, std::ostream& os, const char* t
         os << "\n";
     }
     for (auto& c : C.classes) os << "codec vptr " << r.cnum(&c) << " " << (std::ptrdiff_t)(*c.static_vptr - data.vtbls) << "\n";
-    auto after = walk_all(r, true, true);
+    if (!published) before = before_manual;
+    auto after = walk_all(r, true, published);
     std::size_t mism = 0; std::string first;
     for (std::size_t i = 0; i < before.size() || i < after.size(); ++i) {
         std::string a = i < before.size() ? before[i] : "<none>", b = i < after.size() ? after[i] : "<none>";
